@@ -443,15 +443,74 @@ var BubbleLinger = 10 * time.Minute
 
 var (
 	wedgeMu    sync.Mutex
-	wedgeCheck func() error
+	wedgeCheck func(Wedge) error
 	curProp    string
 	curSub     string
 	curJSON    []byte
 )
 
+// DefaultWedgeCheck, if set (by a package's harness), is the wedge oracle of every bubble that does not register
+// its own.
+var DefaultWedgeCheck func(Wedge) error
+
+// IdleSleepFrames lists functions of the code under test that are allowed to be asleep in a wedged bubble without
+// making the verdict inconclusive: background loops that sleep between rounds and hold no lock meanwhile.
+var IdleSleepFrames = []string{"UsedRandomCleaner", "regularQueueUpload"}
+
+// Wedge describes a permanently stuck bubble: its goroutines, all blocked, at least one queued on a lock.
+type Wedge struct{ Goroutines []WedgedG }
+
+// WedgedG is one goroutine of a wedged bubble.
+type WedgedG struct {
+	ID, State string
+	Frames    []string // function names, innermost first
+	Cloak     string   // innermost frame in the code under test ("" if none)
+}
+
+// OnLock reports whether the goroutine is queued on a sync.Mutex / sync.RWMutex.
+func (g WedgedG) OnLock() bool {
+	return strings.HasPrefix(g.State, "sync.Mutex.") || strings.HasPrefix(g.State, "sync.RWMutex.")
+}
+
+// Has reports whether a frame of the goroutine's stack contains s.
+func (g WedgedG) Has(s string) bool {
+	for _, f := range g.Frames {
+		if strings.Contains(f, s) {
+			return true
+		}
+	}
+	return false
+}
+
+// QueuedOnLock returns a description of the first goroutine that is queued on a lock and has a frame containing one
+// of the given substrings.
+func (w Wedge) QueuedOnLock(frames ...string) (string, bool) {
+	for _, g := range w.Goroutines {
+		if !g.OnLock() {
+			continue
+		}
+		for _, f := range frames {
+			if g.Has(f) {
+				return fmt.Sprintf("%s in %s", g.State, g.Cloak), true
+			}
+		}
+	}
+	return "", false
+}
+
+// AnyHas reports whether some goroutine of the bubble has a frame containing s.
+func (w Wedge) AnyHas(s string) bool {
+	for _, g := range w.Goroutines {
+		if g.Has(s) {
+			return true
+		}
+	}
+	return false
+}
+
 // SetWedgeCheck registers the oracle consulted when the current bubble turns out to be wedged. It must only read
-// harness bookkeeping that is safe to read while every goroutine of the bubble is blocked. Bubble clears it.
-func SetWedgeCheck(f func() error) {
+// harness bookkeeping that is safe to read while every goroutine of the bubble is blocked. Bubble resets it.
+func SetWedgeCheck(f func(Wedge) error) {
 	wedgeMu.Lock()
 	wedgeCheck = f
 	wedgeMu.Unlock()
@@ -583,7 +642,15 @@ func handleWedge(gs []bubbleG) {
 			locks = append(locks, fmt.Sprintf("goroutine %s queued on %s in %s", g.id, g.state, g.cloak))
 		}
 		if strings.HasPrefix(g.state, "sleep") && g.cloak != "" {
-			sleepers = append(sleepers, g.cloak)
+			idle := false
+			for _, f := range IdleSleepFrames {
+				if strings.Contains(g.cloak, f) {
+					idle = true
+				}
+			}
+			if !idle {
+				sleepers = append(sleepers, g.cloak)
+			}
 		}
 	}
 	wedgeMu.Lock()
@@ -592,7 +659,11 @@ func handleWedge(gs []bubbleG) {
 	summary := strings.Join(locks, "; ")
 	var verdict error
 	if chk != nil && len(sleepers) == 0 {
-		verdict = chk()
+		w := Wedge{}
+		for _, g := range gs {
+			w.Goroutines = append(w.Goroutines, WedgedG{ID: g.id, State: g.state, Frames: g.frames, Cloak: g.cloak})
+		}
+		verdict = chk(w)
 	}
 	FlushStats()
 	if v, ok := verdict.(*Violation); ok && prop != "" {
@@ -611,7 +682,7 @@ func handleWedge(gs []bubbleG) {
 // Bubble runs f inside a synctest bubble and converts a bubble failure (deadlock: goroutines left
 // blocked for ever when the root returns, or a panic in the root goroutine) into an error.
 func Bubble(t *testing.T, f func()) (err error) {
-	SetWedgeCheck(nil)
+	SetWedgeCheck(DefaultWedgeCheck)
 	done := make(chan struct{})
 	go func() {
 		defer close(done)
